@@ -8,6 +8,10 @@ CONSTANTS
   Maps = {"none", "identity", "s_ab", "s_swap", "s_id", "s_ba", "s_proj", "r_strip", "r_append", "b_local", "b_localopt"}
   Norms = {"auto", "precis_casefold"}
   Kinds = {"Create", "SetPw", "Delete", "AuthPlain", "AuthLogin", "AuthPair", "AuthDirect", "SOpen", "SEhlo", "SAuth", "SMail", "SRset", "SClose"}
+  UxVariants = {"plain", "under", "underb", "pct"}
+  Tbls = {"mem", "sql"}
+  Defers = {TRUE, FALSE}
+  MailFroms = {"addr", "null", "nullparam", "upper", "utf8"}
   MaxOps = 12
   Devs = {"LoginMapTwice", "BcryptTrunc"}
   Gen = FALSE
